@@ -198,6 +198,16 @@ def main(tier, replay=None):
         lex = rng.choice([ip + '.' + fp, ip + '.' + fp, (ip or '7') + '%', str(rng.randint(2, 9)) + '^' + str(rng.randint(0, 9)), ip or '0'])
         node = F.num(lex)
         obs.append(run_variants(lib, node, base_env(), [lex, '(' + lex + ')'], 'lit', True, want=spelled(lex)))
+    # long digit strings and large powers spell integers beyond the doubles: still exactly the number they spell
+    for _ in range(400 if quick else 8000):
+        k = rng.random()
+        if k < 0.4:
+            lex = str(rng.randint(1, 9)) + ''.join(rng.choice('0123456789') for _ in range(rng.randint(9, 40)))
+        elif k < 0.9:
+            lex = str(rng.choice([2, 3, 5, 6, 7, 9, 10, 11, 12, 15, 17, 99, rng.randint(2, 999)])) + '^' + str(rng.randint(10, 60))
+        else:
+            lex = str(rng.randint(10 ** 9, 10 ** 18)) + '%'
+        obs.append(run_variants(lib, F.num(lex), base_env(), [lex, '(' + lex + ')'], 'lit', True, want=spelled(lex)))
     # C2S: quoted literals over Unicode, both delimiters
     for _ in range(1500 if quick else 40000):
         q = rng.choice(['"', "'"])
